@@ -106,9 +106,17 @@ static inline void ABTD_verif_ctx_fini(ABTD_ythread_context *p_ctx)
         ABTD_verif_fiber_put(p_ctx->verif_tsan_fiber, p_ctx->verif_tsan_owned);
     p_ctx->verif_tsan_fiber = NULL;
     p_ctx->verif_tsan_owned = 0;
-#else
-    (void)p_ctx;
 #endif
+#ifdef ABTD_VERIF_ASAN
+    /* The stack is being released or reused: frames that never returned
+     * (a ULT ends with a jump) leave poisoned red zones behind, and the memory
+     * may be handed out again for something else. */
+    if (p_ctx->p_stacktop && p_ctx->stacksize)
+        __asan_unpoison_memory_region((const char *)p_ctx->p_stacktop -
+                                          p_ctx->stacksize,
+                                      p_ctx->stacksize);
+#endif
+    (void)p_ctx;
 }
 
 #ifdef ABTD_VERIF_ASAN
